@@ -7,6 +7,11 @@
 #   EXEC harness/drv_sample      one driver process per implementation chain (PIXMAN_DISABLE)
 #   WIDE the same samples through the floating point pipeline (DISJOINT_OVER on a8r8g8b8, rgba_float and
 #        a2r10g10b10 destinations) x filters x repeats x affine/projective x 5x4 / 1xN / Nx1 sources
+#   FAR  affine requests whose sample positions use the whole 16.16 range (translations up to +-32000 pixels on
+#        either axis, scales 1/8 .. 1000, sources and requests tens of thousands of pixels wide or tall), stratified
+#        by the reach first sample -> far edge of the source below / at / above 2^15 pixels; NEAREST, BILINEAR (and a
+#        convolution) x the four repeats x SRC / OVER into a8r8g8b8 / x8r8g8b8 / r5g6b5, plain, solid and a8 masks;
+#        windows of the destination only; judged by Sample!FetchFar with <<whole, frac>> pair arithmetic
 #   TV   spec/trace/SampleTrace  every recorded composite validated by TLC, each chain's trace on its own
 import json
 import os
@@ -31,7 +36,16 @@ CLAIMS = {
              "The same samples are also requested through the wide (floating point) pipeline (DISJOINT_OVER on "
              "a8r8g8b8, rgba_float and a2r10g10b10 destinations) for every filter kind, repeat mode, affine and "
              "projective transforms and 1xN / Nx1 sources, and judged against the same positions, neighbours and "
-             "repeat mapping with a one-step tolerance (bilinear: any weight that truncates to the 7-bit weight).",
+             "repeat mapping with a one-step tolerance (bilinear: any weight that truncates to the 7-bit weight). "
+             "A far-from-the-origin suite covers affine transforms whose sample positions use the whole 16.16 range "
+             "(translations up to +-32000 pixels on either axis, scales 1/8 to 1000, mirrored, quarter turn, shear; "
+             "sources up to 32600 and requests up to 64000 pixels wide or tall), stratified by the distance from the "
+             "first sample of a row to the far edge of the source (below / within two steps of / above 2^15 pixels), "
+             "for NEAREST, BILINEAR and convolutions x four repeats x the operator / format / mask pairs served by "
+             "the scaled fast paths (SRC and OVER into a8r8g8b8, x8r8g8b8, r5g6b5; no, solid and a8 mask) and by the "
+             "general path; TLC judges windows of the destination at the ends of the request and around the "
+             "pre-image of the source corners with pair arithmetic (Sample!FetchFar), model-checked against the "
+             "32-bit definitions and against positions computed with unbounded integers.",
         ref="5 C08"),
 }
 
@@ -299,6 +313,239 @@ def wide_execs(rng, per_cell):
     return ex
 
 
+# ------------------------------------------------------------------------------------------
+# far from the origin: the statement quantifies over all transforms whose sample positions stay in the 16.16 range,
+# i.e. up to +-32767 pixels.  Exact mirrors (unbounded integers) of Sample!PosPF / FarInDomain steer the generator.
+
+FAR_MAX = 32700
+
+
+def far_pos(m, r, x, y):
+    return (m[r][0] * (2 * x + 1) + m[r][1] * (2 * y + 1) + 2 * m[r][2] + 1) // 2
+
+
+def far_mul_ok(v, k):
+    return k == 0 or (abs(k) < 262144 and abs(v // ONE) <= 536870912 // abs(k))
+
+
+def far_in_domain(m, x0, y0, n, rows):
+    if not (1 <= n <= 65536 and 1 <= rows <= 65536):
+        return False
+    if x0 - 1 < -32768 or y0 - 1 < -32768 or x0 + n + 1 > 32767 or y0 + rows + 1 > 32767:
+        return False
+    for x in (x0 - 1, x0 + n):
+        for y in (y0 - 1, y0 + rows):
+            for r in (0, 1):
+                if not (far_mul_ok(m[r][0], 2 * x + 1) and far_mul_ok(m[r][1], 2 * y + 1)):
+                    return False
+                if abs(far_pos(m, r, x, y) // ONE) > FAR_MAX:
+                    return False
+    return True
+
+
+def far_pixels(rng, fmt, w, h):
+    bits = {"a8r8g8b8": 32, "x8r8g8b8": 32, "r5g6b5": 16, "a8": 8}[fmt]
+    return [rng.getrandbits(bits) for _ in range(w * h)]
+
+
+def far_geometries(rng, thorough):
+    """(family, matrix, (w, h), (x0, y0, n, rows)) along the x axis; the y axis gets the same transposed
+    (far_transpose).  Positive scales: every class of scale (reduction, about 1, 1.5 .. 16, 64 .. 1000) x every
+    stratum of the *reach* = (distance from the first sample of a row to the far edge of the source) + one step, the
+    quantity the scaled fast paths form sums of: well below 2^15 pixels, within two steps of 2^15, above 2^15 (up to
+    2^16: source and first sample at opposite ends of the 16.16 range).  The source width, the request's first column
+    (about 0, far negative, far positive) and hence the translation follow from scale and reach.  Then large
+    positive translations, mirrored scales, a quarter turn and a shear with both translations large."""
+    out = []
+    frac = lambda: rng.choice([0, 0, 1, -1, ONE // 2, ONE // 4 + 1, 0x2468, -0x1357])
+    small_sy = lambda: rng.choice([ONE, ONE, ONE // 2, 2 * ONE, 3 * ONE // 2])
+    hh = lambda: rng.choice([1, 2, 3])
+    far_t = [10000, 16000, 20000, 24000, 28000, 29000, 30000, 31000, 32000]
+
+    def aff(sx, tx, sy, ty):
+        return [[sx, 0, tx], [0, sy, ty], [0, 0, ONE]]
+
+    def rows_for(sy, ty, h):
+        # a few destination rows straddling the top or bottom edge of the source
+        ylo = -((ty) // sy) - 1
+        yhi = (h * ONE - ty) // sy
+        y0 = rng.choice([ylo, ylo, ylo + 1, max(ylo, yhi - 1)])
+        return y0, rng.choice([1, 2, 3])
+
+    classes = [("reduce", [ONE // 2, ONE // 3, 2 * ONE // 3 + 1, ONE // 8, ONE // 4 + 1, 52429]),
+               ("unit", [ONE, ONE + 1, ONE - 1, ONE + 7, ONE]),
+               ("enlarge", [3 * ONE // 2, 2 * ONE, 4 * ONE, 8 * ONE, 16 * ONE, 2 * 52429, 3 * ONE + 0x1234]),
+               ("big", [64 * ONE, 100 * ONE + 1, 256 * ONE - 1, 1000 * ONE, 333 * ONE + 0x1234])]
+    strata = ["below", "at", "above"]
+    for cname, scales in classes:
+        for stratum in strata:
+            for _rep in range(1 if not thorough else 3):
+                sx = rng.choice(scales if cname != "reduce" or stratum == "below" else [2 * ONE // 3 + 1, 52429, 3 * ONE // 4])
+                if stratum == "below":
+                    R = rng.randint(12000, 32000) * ONE
+                elif stratum == "at":
+                    R = 32768 * ONE + rng.choice([-2, -1, 0, 0, 1, 2]) * sx + rng.choice([-1, 0, 0, 1])
+                else:
+                    R = rng.choice([32800, 33000, 33000, 34000, 36000, 40000] + ([48000, 56000, 64000] if thorough else [])) * ONE
+                # the request must fit 16-bit coordinates: (reach / scale) destination pixels
+                R = min(R, (65200 * sx // ONE) * ONE)
+                stepc = -(-sx // ONE)
+                # the request expanded by one pixel must stay within FetchFar's bound at either end
+                wmin = max(8, R // ONE - (32600 - 2 * stepc) - stepc)
+                wmax = min(32600 - 2 * stepc, R // ONE - stepc - 1)
+                cand = [c for c in (8, 50, 300, 700, 1500, 3000, 6000, 12000, 20000, 32600) if wmin <= c <= wmax]
+                if wmax < wmin:
+                    continue
+                w = rng.choice(cand[:4] if not thorough else cand) if cand else wmin
+                vx = -(R - w * ONE - sx) + frac()          # position of the first sample of a row
+                # destination pixels from there to beyond the source
+                span = (w * ONE - vx) // sx + min(6, max(1, (32650 - w) * ONE // sx - 1))
+                xs = [c for c in (0, 0, -2, 5, -32000, -20000, 12000, 15000)
+                      if -32700 <= c <= 32700 - span and abs(vx - sx * c - sx // 2) < (1 << 31) - 1]
+                if not xs:
+                    if 32700 - span < -32700:
+                        continue
+                    xs = [32700 - span]
+                x0 = rng.choice(xs)
+                tx = vx - sx * x0 - sx // 2
+                sy, h = small_sy(), (hh() if w <= 20000 else 1)
+                ty = frac()
+                y0, rows = rows_for(sy, ty, h)
+                out.append(("%s-%s" % (cname, stratum), aff(sx, tx, sy, ty), (w, h), (x0, y0, span, rows)))
+    # large positive translation: the source lies at far negative destination coordinates; a short request around
+    # it, or a long one running on to the far right (long right padding)
+    for T in (rng.sample(far_t, 2) if not thorough else far_t[::2]):
+        sx = rng.choice([ONE, 2 * ONE, 3 * ONE, 8 * ONE, 3 * ONE // 2])
+        w = rng.choice([40, 333, 2000])
+        T += rng.randint(-300, 300)
+        tx = T * ONE + frac()
+        sy, h = small_sy(), hh()
+        ty = frac()
+        x0 = -((T * ONE) // sx) - rng.choice([3, 5, 9])
+        long_ = rng.random() < 0.5
+        n = (w * ONE) // sx + 12 if not long_ else min((30000 * ONE) // sx, 32700 - x0)
+        y0, rows = rows_for(sy, ty, h)
+        out.append(("trans+", aff(sx, tx, sy, ty), (w, h), (x0, y0, n, rows)))
+    # mirrored (negative scale): positions run from far positive down to the source
+    for T in rng.sample(far_t, 1 if not thorough else 3):
+        k = rng.choice([1, 2, 3])
+        w = rng.choice([60, 900])
+        tx = T * ONE + frac()
+        sy, h = small_sy(), hh()
+        ty = frac()
+        x0 = rng.choice([0, 2])
+        n = (T * ONE) // (k * ONE) + 6 - x0
+        y0, rows = rows_for(sy, ty, h)
+        out.append(("flip", aff(-k * ONE, tx, sy, ty), (w, h), (x0, y0, n, rows)))
+    # a quarter turn and a shear with both translations large (request at large source coordinates)
+    for T in rng.sample(far_t, 1 if not thorough else 3):
+        w, h = rng.choice([(300, 3), (40, 7)])
+        U = rng.choice(far_t)
+        tx, ty = T * ONE + frac(), -U * ONE + frac()
+        # x' = -(y + 1/2) + tx in [0, w)  ->  y in (T - w, T];  y' = (x + 1/2) + ty in [0, h)  ->  x in [U, U + h)
+        out.append(("rot90", [[0, -ONE, tx], [ONE, 0, ty], [0, 0, ONE]], (w, h), (U - 3, T - w - 3, h + 7, w + 7)))
+        out.append(("shear", [[ONE, ONE // 4, -T * ONE + frac()], [0, ONE, -U * ONE + frac()], [0, 0, ONE]], (w, h),
+                    (T - U // 4 - 6, U - 2, w + 14, h + 4)))
+    return out
+
+
+def far_transpose(g):
+    fam, m, (w, h), (x0, y0, n, rows) = g
+    mt = [[m[1][1], m[1][0], m[1][2]], [m[0][1], m[0][0], m[0][2]], [0, 0, ONE]]
+    return (fam + "/y", mt, (h, w), (y0, x0, rows, n))
+
+
+def far_windows(rng, m, w, h, x0, y0, n, rows):
+    """windows of the destination worth recording: the ends of the request and the neighbourhood of the pre-image of
+    every source corner, plus one random place"""
+    a = [[float(v) / ONE for v in r] for r in m]
+    det = a[0][0] * a[1][1] - a[0][1] * a[1][0]
+    cols, rws = [0, n - 1], [0, rows - 1]
+    if abs(det) > 1e-12:
+        for (sx, sy) in ((0, 0), (w, 0), (0, h), (w, h)):
+            u, v = sx - a[0][2], sy - a[1][2]
+            X = (a[1][1] * u - a[0][1] * v) / det - 0.5
+            Y = (-a[1][0] * u + a[0][0] * v) / det - 0.5
+            if -1e6 < X < 1e6 and -1e6 < Y < 1e6:
+                cols.append(int(round(X)) - x0)
+                rws.append(int(round(Y)) - y0)
+    cols.append(rng.randrange(n))
+    rws.append(rng.randrange(rows))
+    wn, hn = min(n, 4), min(rows, 2)
+    cl = lambda c, size, k: max(0, min(size - k, c - k // 2))
+    cs = sorted(set(cl(c, n, wn) for c in cols))
+    rs = sorted(set(cl(r, rows, hn) for r in rws))
+    wins = []
+    for k in range(max(len(cs), len(rs))):
+        wins.append((cs[k % len(cs)], rs[(k + (k // len(rs))) % len(rs)], wn, hn))
+    wins = sorted(set(wins))
+    if len(wins) > 10:
+        wins = rng.sample(wins, 10)
+    return wins
+
+
+FAR_COMBOS = {
+    # (role, operator, destination format, mask): the operator / format pairs served by the scaled NEAREST and
+    # BILINEAR fast paths of the C, MMX and SSE2 implementations, and pairs only the general path serves
+    "a8r8g8b8": [("src", "src", "a8r8g8b8", "none"), ("src", "over", "a8r8g8b8", "none"), ("src", "src", "r5g6b5", "none"),
+                 ("src", "over", "r5g6b5", "none"), ("src", "over", "x8r8g8b8", "solid"), ("src", "over", "a8r8g8b8", "a8"),
+                 ("src", "src", "x8r8g8b8", "none"), ("src", "over", "a8r8g8b8", "solid"), ("mask", "src", "a8r8g8b8", "none"),
+                 ("src", "over", "x8r8g8b8", "none")],
+    "x8r8g8b8": [("src", "src", "a8r8g8b8", "none"), ("src", "src", "x8r8g8b8", "none"), ("src", "src", "r5g6b5", "none"),
+                 ("src", "over", "a8r8g8b8", "none"), ("src", "over", "x8r8g8b8", "a8")],
+    "r5g6b5": [("src", "src", "r5g6b5", "none"), ("src", "src", "a8r8g8b8", "none"), ("src", "over", "r5g6b5", "none"),
+               ("src", "over", "a8r8g8b8", "solid")],
+    "a8": [("src", "src", "a8r8g8b8", "none"), ("mask", "src", "a8r8g8b8", "none"), ("src", "over", "a8r8g8b8", "none"),
+           ("src", "src", "r5g6b5", "none")],
+}
+FAR_FMTS = ["a8r8g8b8", "a8r8g8b8", "x8r8g8b8", "a8r8g8b8", "r5g6b5", "a8r8g8b8", "a8"]
+
+
+def far_execs(rng, thorough, stats):
+    """one execution per geometry: the source, the transform, then NEAREST and BILINEAR x the four repeat modes, each
+    fetched through the next operator / destination format / mask combination of the source's format"""
+    geos = far_geometries(rng, thorough)
+    geos = geos + [far_transpose(g) for g in (geos if thorough else rng.sample(geos, len(geos) // 2))]
+    ex = []
+    for e, (fam, m, (w, h), (x0, y0, n, rows)) in enumerate(geos):
+        if not far_in_domain(m, x0, y0, n, rows) or w * h > 65000 or n * rows > (1 << 22) or w < 1 or h < 1:
+            stats["far_dropped"] = stats.get("far_dropped", 0) + 1
+            continue
+        fmt = FAR_FMTS[(e + stats["seed"]) % len(FAR_FMTS)]
+        combos = FAR_COMBOS[fmt]
+        out = ["R far%d_%s" % (e, fam.replace("/", "_").replace("+", "p").replace("-", "m")),
+               "I %s %d %d %s" % (fmt, w, h, " ".join(map(str, far_pixels(rng, fmt, w, h)))),
+               "T " + " ".join(str(v) for r in m for v in r)]
+        # reach: the quantity the scaled fast paths form sums of (first sample to the far edge of the source + a step)
+        for r, size, c0 in ((0, w, (x0, y0)), (1, h, (x0, y0))):
+            p0 = far_pos(m, r, x0, y0)
+            step = abs(m[r][0]) + abs(m[r][1])
+            reach = max(abs(p0), abs(size * ONE - p0)) + step
+            if reach >= 32768 * ONE:
+                stats["far_reach_ge_2_15"] = stats.get("far_reach_ge_2_15", 0) + 1
+                break
+        else:
+            stats["far_reach_lt_2_15"] = stats.get("far_reach_lt_2_15", 0) + 1
+        fams = stats.setdefault("far_families", {})
+        fams[fam] = fams.get(fam, 0) + 1
+        j = 0
+        # ... and one (thorough: four) convolution / separable convolution request: the general fetchers only
+        heavy = [filter_line(rng, ("convolution", "separable")[(e + i) % 2], kernels(rng)) for i in range(4 if thorough else 1)]
+        for flt in ["F nearest 0", "F bilinear 0"] + heavy:
+            out.append(flt)
+            for rep in (REPEATS if flt in ("F nearest 0", "F bilinear 0") else [REPEATS[(e + j) % 4]]):
+                out.append("P " + rep)
+                role, op, dfmt, mask = combos[(e + j) % len(combos)]
+                j += 1
+                if mask == "a8" and (n + 20 >= 0x7fff or rows >= 0x7fff):
+                    mask = "solid"      # the library refuses bits images (here: the mask) of 32767 pixels or more
+                wins = far_windows(rng, m, w, h, x0, y0, n, rows)
+                out.append("Z %s %s %s %s %d %d %d %d %d %d %s" % (role, op, dfmt, mask, x0, y0, n, rows, rng.choice([0, 0, 1, 2, 3]),
+                                                                 len(wins), " ".join("%d %d %d %d" % wn for wn in wins)))
+        ex.append(out)
+    return ex
+
+
 def filter_line(rng, kind, kers):
     if kind == "nearest":
         return "F nearest 0"
@@ -417,8 +664,25 @@ def behaviour_script(beh, name):
 
 def count_events(chk, tracefile, chain):
     cfg = None
+    fmt_of = {}
     for line in open(tracefile):
-        if line.startswith('{"e":"Fetch"') or line.startswith('{"e":"FetchWide"'):
+        if line.startswith('{"e":"FetchWin"'):
+            ev = json.loads(line)
+            nrows = sum(wn[3] for wn in ev["wins"])
+            npix = sum(wn[2] * wn[3] for wn in ev["wins"])
+            chk.evaluations += nrows
+            chk.extra["pixels"] = chk.extra.get("pixels", 0) + npix
+            chk.extra["far_pixels"] = chk.extra.get("far_pixels", 0) + npix
+            chk.extra["far_fetches"] = chk.extra.get("far_fetches", 0) + 1
+            cell = "%s %s->%s %s" % (ev["op"], (cfg or (0, 0))[0] and fmt_of.get(cfg[0], "?"), ev["dfmt"],
+                                     ev["mask"] if ev["role"] == "src" else "as-mask")
+            cells = chk.extra.setdefault("far_fetches_by_pair", {})
+            cells[cell] = cells.get(cell, 0) + 1
+            key = (cfg, ev["x0"], ev["y0"], ev["n"], ev["rows"], ev["role"], ev["op"], ev["dfmt"], ev["mask"])
+            chk.distinct_keys.add(hash(key))
+            by = chk.extra.setdefault("rows_by_chain", {})
+            by[chain or "(all enabled)"] = by.get(chain or "(all enabled)", 0) + nrows
+        elif line.startswith('{"e":"Fetch"') or line.startswith('{"e":"FetchWide"'):
             ev = json.loads(line)
             if ev["e"] == "FetchWide":
                 wk = chk.extra.setdefault("wide_rows_by_mode", {})
@@ -433,6 +697,7 @@ def count_events(chk, tracefile, chain):
             cfg = None
         elif line.startswith('{"e":"Image"'):
             cfg = (hash(line), None, None, None)
+            fmt_of[cfg[0]] = line.split('"fmt":"')[1].split('"')[0]
         elif line.startswith('{"e":"Transform"') and cfg:
             cfg = (cfg[0], hash(line), cfg[2], cfg[3])
             ev = json.loads(line)
@@ -452,14 +717,14 @@ def mc(chk, tier):
     from concurrent.futures import ThreadPoolExecutor
     base = os.path.join(vf.SPEC, "mc")
     cfgs = [("SampleMC.cfg", False), ("SampleMC_neg_reflect.cfg", True), ("SampleMC_neg_tie.cfg", True),
-            ("SampleMC_neg_kernel.cfg", True)]
+            ("SampleMC_neg_kernel.cfg", True), ("SampleMC_neg_carry.cfg", True)]
 
     def one(c):
         cfg, neg = c
         return vf.tlc_mc(os.path.join(base, "SampleMC.tla"), cfg=os.path.join(base, cfg), workers=4 if not neg else 2,
                          timeout=1200, expect_violation=neg, tag=cfg[:-4])
 
-    with ThreadPoolExecutor(max_workers=4) as ex:
+    with ThreadPoolExecutor(max_workers=5) as ex:
         results = list(ex.map(one, cfgs))
     for (cfg, neg), r in zip(cfgs, results):
         chk.add_tlc(r, ("negative config (must be rejected) " if neg else "model check ") + cfg)
@@ -511,6 +776,18 @@ def run(prop, args):
             execs.append(cover_exec(rng, "cov%d" % i))
         else:
             execs.append(random_exec(rng, "rnd%d" % i, thorough=not quick))
+    # far from the origin (see far_geometries); rides in the same batches, hence under every implementation chain
+    fstats = {"seed": args.seed}
+    fex = []
+    for rnd in range(1 if quick else 6):
+        fex += [[e[0] + "_%d" % rnd] + e[1:] for e in far_execs(rng, not quick, fstats)]
+    del fstats["seed"]
+    chk.extra.update(fstats)
+    chk.extra["far_executions"] = len(fex)
+    if not fex or fstats.get("far_dropped", 0) > len(fex) // 4:
+        raise vf.Infra("far-from-origin generator: %d executions, %s dropped" % (len(fex), fstats.get("far_dropped", 0)))
+    chk.sample({"far_script_lines": [ln[:160] for ln in fex[0][:6]]})
+    execs += fex
     rng.shuffle(execs)          # spread the kinds of execution evenly over the batches
     chk.extra["executions_per_chain"] = len(execs)
     chk.extra["tlc_generated_behaviours"] = len(behs)
@@ -561,6 +838,9 @@ def run(prop, args):
 
     # 4. trace validation (each chain's trace on its own)
     vf.validate_batches(chk, "SampleTrace", traces, cfg=cfg, parallel=8, timeout=2400)
+    if any("far-skip" in nt for nt in chk.extra.get("policy_notes", [])):
+        raise vf.Infra("a far-from-origin request left FetchFar's arithmetic domain (generator and Sample!FarInDomain "
+                       "disagree): " + "; ".join(chk.extra["policy_notes"]))
     for v in chk.violations:
         try:
             lines = open(v["replay"]).read().splitlines()
@@ -580,7 +860,12 @@ def run(prop, args):
     chk.extra["domain"] = ("sources up to 17x4 in a8r8g8b8/x8r8g8b8/r5g6b5/a8, destination rows up to 24 pixels at "
                            "|x|,|y| <= 100, matrix entries up to 3.0 (w row up to 3.0, slopes 1/64 and 1/8), "
                            "sample positions within +-16000 pixels; projective matrices have even entries in "
-                           "columns 0 and 1 (exact homogeneous coordinates)")
+                           "columns 0 and 1 (exact homogeneous coordinates); far suite (affine, NEAREST/BILINEAR): "
+                           "translations up to +-32000 pixels on either axis, scales 1/8 .. 1000 and -3 .. -1, quarter "
+                           "turn and shear, sources up to 32600 pixels wide / tall, requests up to 64000 pixels wide / "
+                           "tall at coordinates within +-32700, sample positions within +-32700 pixels, SRC / OVER "
+                           "into a8r8g8b8 / x8r8g8b8 / r5g6b5 without mask, with a solid or an a8 mask; windows of "
+                           "the destination at the ends of the request and around the pre-image of the source corners")
     chk.assumptions += ["TLC/SANY and the CommunityModules Json/IOUtils readers are trusted",
                         "the a8r8g8b8 destination of an OP_SRC composite shows the fetched value unchanged "
                         "(as a component-alpha mask: white IN mask = mask)",
@@ -590,5 +875,8 @@ def run(prop, args):
                         "weights may keep more than 7 bits of the fraction (any weight truncating to the 7-bit "
                         "weight); tolerance one step of the coarser of 8 bits and the destination depth",
                         "requests with a pixel centre (rectangle expanded by one pixel) mapped beyond +-16000 "
-                        "pixels or with w = 0 are not judged"]
+                        "pixels (far suite: +-32700 pixels) or with w = 0 are not judged",
+                        "far suite: OVER onto a cleared destination, and an all-ones solid or a8 mask, show the fetched "
+                        "value unchanged; an x8r8g8b8 destination shows its colour channels, an r5g6b5 destination "
+                        "the most significant 5/6/5 bits of its colour channels"]
     return chk.finish()
